@@ -46,6 +46,11 @@ def make_pdu(rng, kind, fill=None):
         kw["dbsn"] = rng.randrange(128)
     if "l" in sub:
         kw["crc32"] = rng.randrange(1, 1 << 32)
+    if sub == "u" and fill is None and rng.random() < 0.15:
+        # an unconfirmed block whose user octets happen to read as a confirmed block (serial number + valid CRC-9 in front of
+        # the rest): the burst cannot know, it is unconfirmed because it was built so
+        look = C(data=gen.rbytes(rng, n - 2), packet_type=T.Confirmed, dbsn=rng.randrange(128))
+        return C(data=look.as_bits().tobytes(), packet_type=typ), dt, typ
     return C(data=gen.rbytes(rng, dl) if fill is None else bytes([fill]) * dl, packet_type=typ, **kw), dt, typ
 
 
@@ -101,6 +106,10 @@ def data_work(args):
                 else:
                     same_bits = p.data.as_bits() == pdu.as_bits()
                     rec["fields_equal"] = bool(same_bits and struct(p.data.convert(typ)) == struct(pdu))
+                    if kind.endswith("/u"):
+                        # an unconfirmed (not last) block is nothing but its user octets: they come back as they are, without any
+                        # conversion (the burst must not read a serial number and CRC-9 into them)
+                        rec["fields_equal"] = bool(rec["fields_equal"] and bytes(p.data.data) == bytes(pdu.data))
                 ba2 = __import__("bitarray").bitarray(endian="big")
                 ba2.frombytes(p.as_bytes())
                 rec["bytes2"] = pack(ba2)
